@@ -161,10 +161,10 @@ def main(argv=None):
         print('VIOLATION property=%s replay=%s' % (pid, path))
         print('  harness=%s obligation=%s inputs=%s' % (f['harness'], f['obligation'], json.dumps(_short(f['inputs']))))
         rc = 1
-    if rc == 0:
-        for r in errors:
-            print('HARNESS-ERROR %s: %s' % (r['hid'], r['error'])); print(r.get('tb', ''))
-            rc = 2
+    for r in errors:
+        print('HARNESS-ERROR %s: %s' % (r['hid'], r['error'])); print(r.get('tb', '')[-800:] if rc == 0 else '')
+        rc = rc or 2
+    if rc != 1:
         for f, path, c, out in nonrepro:
             print('NON-REPRODUCING counterexample (encoding or stub is wrong) harness=%s obligation=%s rc=%s file=%s\n%s'
                   % (f['harness'], f['obligation'], c, path, out[-1500:]))
